@@ -34,7 +34,7 @@ var apiFns = []string{
 	"BooleanOpPolyTree64", "Clipper64.Execute", "Clipper64.ExecuteOC", "Clipper64.ExecutePolyTree64", "Clipper64.AddPath",
 	"BooleanOpPathsD", "UnionPathsD", "UnionWithClipPathsD", "IntersectWithClipPathsD", "DifferenceWithClipPathsD", "XorWithClipPathsD",
 	"BooleanOpPolyTreeD", "ClipperD.Execute", "ClipperD.ExecuteOC", "ClipperD.ExecutePolyTreeD", "ClipperD.ScaleFuncs",
-	"InflatePaths64", "InflatePathsD", "ClipperOffset.Execute64", "ClipperOffset.DeltaCallback", "NewGroup",
+	"InflatePaths64", "InflatePathsD", "ClipperOffset.Execute64", "ClipperOffset.DeltaCallback", "ClipperOffset.SharedDeltaCallback", "NewGroup",
 	"MinkowskiSum64", "MinkowskiDiff64", "MinkowskiSumD", "MinkowskiDiffD",
 	"RectClipPaths64", "RectClipPath64", "RectClipPathsD", "RectClipPathD", "RectClip64.Execute",
 	"RectClipLinesPaths64", "RectClipLinesPath64", "RectClipLinesPathsD", "RectClipLinesPathD", "RectClipLines64.Execute",
@@ -366,6 +366,15 @@ func (c *APICall) Run() (res APIResult) {
 		sol := Paths{}
 		co.Execute64(1, &sol)
 		out = append(out, sol)
+	case "ClipperOffset.SharedDeltaCallback":
+		// one callback variable handed (by pointer, as the API wants it) to every offsetter: a
+		// shared read-only input like the path slices; it is a pure function of its arguments
+		co := c2.NewClipperOffset(c.F[1], c.F[2], c.Bo[0], c.Bo[1])
+		co.AddPaths(c.A, jt, et)
+		co.SetDeltaCallback(&sharedDeltaCallback)
+		sol := Paths{}
+		co.Execute64(1, &sol)
+		out = append(out, sol)
 	case "NewGroup":
 		g := c2.NewGroup(c.A, jt, et)
 		idx, neg := g.GetLowestPathInfo()
@@ -564,4 +573,9 @@ func cap16D(p c2.PathD) c2.PathD {
 		return p[:16]
 	}
 	return p
+}
+
+// sharedDeltaCallback is never written by the harness after initialisation.
+var sharedDeltaCallback c2.DeltaCallbackFunc = func(path *c2.Path64, norms *c2.PathD, cur, prev uint8) float64 {
+	return 7.5 * float64(1+int(cur)%3) / 2
 }
